@@ -71,7 +71,28 @@ func (pnf *PageNumberFinder) FindPagination(root *html.Node, pageURL *nurl.URL) 
 	url := *pageURL
 	url.Path = strings.TrimSuffix(url.Path, "/")
 	url.RawPath = url.Path
+	// The page is the same page whoever is logged in and wherever it is scrolled to: the
+	// detected pages carry neither user info nor fragment, so the page URL must not either.
+	url.User = nil
+	url.Fragment = ""
+	url.RawFragment = ""
 	strPageURL := url.String()
+
+	// A detected page is the page itself when it has the URL of the page, user info aside
+	// (a relative link inherits the user info of the page URL, an absolute one has none).
+	isPageItself := func(pageInfoURL string) bool {
+		if pageInfoURL == strPageURL {
+			return true
+		}
+
+		parsed, err := nurl.Parse(pageInfoURL)
+		if err != nil || parsed.User == nil {
+			return false
+		}
+
+		parsed.User = nil
+		return parsed.String() == strPageURL
+	}
 
 	pnf.baseURL = pageURL
 	paramInfo := pnf.FindOutlink(root, &url)
@@ -99,7 +120,7 @@ func (pnf *PageNumberFinder) FindPagination(root *html.Node, pageURL *nurl.URL) 
 	if pagination.NextPage == "" && nPageInfo > 0 {
 		for i := nPageInfo - 1; i >= 0; i-- {
 			currentInfo := paramInfo.AllPageInfo[i]
-			if currentInfo.URL != strPageURL {
+			if !isPageItself(currentInfo.URL) {
 				pagination.PrevPage = currentInfo.URL
 				break
 			}
@@ -120,7 +141,7 @@ func (pnf *PageNumberFinder) FindPagination(root *html.Node, pageURL *nurl.URL) 
 
 		for i := nextPageIdx - 1; i >= 0; i-- {
 			currentURL := paramInfo.AllPageInfo[i].URL
-			if currentURL == "" || currentURL != strPageURL {
+			if currentURL == "" || !isPageItself(currentURL) {
 				pagination.PrevPage = currentURL
 				break
 			}
